@@ -537,7 +537,7 @@ func TrimPanic(p any) string {
 // ---------------------------------------------------------------- watchdog
 
 const (
-	hangSeconds   = 45
+	hangTicks     = 100 // x 500 ms = 50 s of scheduled time without progress on one case
 	heapLimitByte = 6 << 30
 )
 
@@ -545,11 +545,16 @@ const (
 // Either ends the child with a marker file; the driver re-executes the case in
 // isolation before believing it (DESIGN §2).
 func (r *Runner) watchdog() {
+	// A hang is "no progress on one case for hangTicks consecutive HEALTHY ticks", not for a wall-
+	// clock span: on a starved machine (seen once: load 130 next to a process holding 56 GB) the
+	// ticks themselves arrive late, and a tick that arrives more than 2 s after the previous one
+	// is not counted - the worker may simply not have been scheduled either.
 	type st struct {
 		p     int64
-		since time.Time
+		ticks int
 	}
 	last := map[*Worker]st{}
+	prevTick := time.Now()
 	tk := time.NewTicker(500 * time.Millisecond)
 	defer tk.Stop()
 	for {
@@ -573,14 +578,20 @@ func (r *Runner) watchdog() {
 			r.exit(4)
 		}
 		now := time.Now()
+		healthy := now.Sub(prevTick) < 2*time.Second
+		prevTick = now
 		for _, w := range ws {
 			p := w.progress.Load()
 			s, ok := last[w]
 			if !ok || s.p != p || w.idle.Load() {
-				last[w] = st{p, now}
+				last[w] = st{p, 0}
 				continue
 			}
-			if now.Sub(s.since) > hangSeconds*time.Second {
+			if healthy {
+				s.ticks++
+				last[w] = s
+			}
+			if s.ticks > hangTicks {
 				r.abort("hang", w)
 				// dump goroutines for the log
 				buf := make([]byte, 1<<20)
